@@ -15,29 +15,34 @@ From XV Require Import C13.Ops13.
 Import ListNotations.
 
 Record snode := mkS {
-  s_ty : ntype; s_name : str; s_val : str; s_attrs : list (str * str);
+  s_ty : ntype; s_name : str; s_val : str;
+  s_attrs : list id;             (* an Element: its Attr nodes, kept sorted by name (canonical form of the unordered map) *)
   s_doc : id;                    (* ownerDocument (a Document: itself) *)
   s_parent : option id;
   s_kids : list id;
   s_ro : bool;
   s_ns : str;                    (* namespace URI ([] = none) *)
-  s_l1 : bool                    (* created by a DOM Level 1 method (createElement/createAttribute): no namespace support *)
+  s_l1 : bool;                   (* created by a DOM Level 1 method (createElement/createAttribute): no namespace support *)
+  s_oelem : option id;           (* an Attr: ownerElement *)
+  s_dead : bool                  (* discarded by the operation that removed it (removeAttribute, a replaced attribute value) *)
 }.
 Definition sheap := list snode.
-Definition sdummy : snode := mkS TText [] [] [] 0 None [] false [] true.
+Definition sdummy : snode := mkS TText [] [] [] 0 None [] false [] true None false.
 Definition sn (s : sheap) (i : id) : snode := nth i s sdummy.
 Fixpoint supd (s : sheap) (i : id) (f : snode -> snode) : sheap :=
   match s, i with [], _ => [] | x :: r, O => f x :: r | x :: r, S j => x :: supd r j f end.
 
-Definition with_val v (n : snode) := mkS (s_ty n) (s_name n) v (s_attrs n) (s_doc n) (s_parent n) (s_kids n) (s_ro n) (s_ns n) (s_l1 n).
-Definition with_attrs v (n : snode) := mkS (s_ty n) (s_name n) (s_val n) v (s_doc n) (s_parent n) (s_kids n) (s_ro n) (s_ns n) (s_l1 n).
-Definition with_parent v (n : snode) := mkS (s_ty n) (s_name n) (s_val n) (s_attrs n) (s_doc n) v (s_kids n) (s_ro n) (s_ns n) (s_l1 n).
-Definition with_name v (n : snode) := mkS (s_ty n) v (s_val n) (s_attrs n) (s_doc n) (s_parent n) (s_kids n) (s_ro n) (s_ns n) (s_l1 n).
-Definition with_ns v (n : snode) := mkS (s_ty n) (s_name n) (s_val n) (s_attrs n) (s_doc n) (s_parent n) (s_kids n) (s_ro n) v (s_l1 n).
-Definition with_kids v (n : snode) := mkS (s_ty n) (s_name n) (s_val n) (s_attrs n) (s_doc n) (s_parent n) v (s_ro n) (s_ns n) (s_l1 n).
+Definition with_val v (n : snode) := mkS (s_ty n) (s_name n) v (s_attrs n) (s_doc n) (s_parent n) (s_kids n) (s_ro n) (s_ns n) (s_l1 n) (s_oelem n) (s_dead n).
+Definition with_attrs v (n : snode) := mkS (s_ty n) (s_name n) (s_val n) v (s_doc n) (s_parent n) (s_kids n) (s_ro n) (s_ns n) (s_l1 n) (s_oelem n) (s_dead n).
+Definition with_parent v (n : snode) := mkS (s_ty n) (s_name n) (s_val n) (s_attrs n) (s_doc n) v (s_kids n) (s_ro n) (s_ns n) (s_l1 n) (s_oelem n) (s_dead n).
+Definition with_name v (n : snode) := mkS (s_ty n) v (s_val n) (s_attrs n) (s_doc n) (s_parent n) (s_kids n) (s_ro n) (s_ns n) (s_l1 n) (s_oelem n) (s_dead n).
+Definition with_ns v (n : snode) := mkS (s_ty n) (s_name n) (s_val n) (s_attrs n) (s_doc n) (s_parent n) (s_kids n) (s_ro n) v (s_l1 n) (s_oelem n) (s_dead n).
+Definition with_oelem v (n : snode) := mkS (s_ty n) (s_name n) (s_val n) (s_attrs n) (s_doc n) (s_parent n) (s_kids n) (s_ro n) (s_ns n) (s_l1 n) v (s_dead n).
+Definition with_dead v (n : snode) := mkS (s_ty n) (s_name n) (s_val n) (s_attrs n) (s_doc n) (s_parent n) (s_kids n) (s_ro n) (s_ns n) (s_l1 n) (s_oelem n) v.
+Definition with_kids v (n : snode) := mkS (s_ty n) (s_name n) (s_val n) (s_attrs n) (s_doc n) (s_parent n) v (s_ro n) (s_ns n) (s_l1 n) (s_oelem n) (s_dead n).
 
 (** rose-tree view of the subtree rooted at [i] *)
-Inductive tree := T (i : id) (ty : ntype) (name value : str) (attrs : list (str * str)) (children : list tree).
+Inductive tree := T (i : id) (ty : ntype) (name value : str) (attrs : list id) (children : list tree).
 Fixpoint tree_of (fuel : nat) (s : sheap) (i : id) : tree :=
   match fuel with
   | O => T i (s_ty (sn s i)) (s_name (sn s i)) (s_val (sn s i)) (s_attrs (sn s i)) []
@@ -155,10 +160,10 @@ Definition s_create (s : sheap) (doc : id) (t : ntype) (nm v : str) : sheap * re
   if negb (ntype_eqb (s_ty (sn s doc)) TDoc) then (s, RSkip)
   else match t with
        | TDoc => (s, RSkip)
-       | TElem | TERef | TAttr => if valid_name nm then s_new s (mkS t nm [] [] doc None [] (ntype_eqb t TERef) [] true) else (s, RErr INVALID_CHAR)
-       | TPI => if valid_name nm then s_new s (mkS t nm v [] doc None [] false [] true) else (s, RErr INVALID_CHAR)
-       | TFrag => s_new s (mkS t [] [] [] doc None [] false [] true)
-       | _ => s_new s (mkS t [] v [] doc None [] false [] true)
+       | TElem | TERef | TAttr => if valid_name nm then s_new s (mkS t nm [] [] doc None [] (ntype_eqb t TERef) [] true None false) else (s, RErr INVALID_CHAR)
+       | TPI => if valid_name nm then s_new s (mkS t nm v [] doc None [] false [] true None false) else (s, RErr INVALID_CHAR)
+       | TFrag => s_new s (mkS t [] [] [] doc None [] false [] true None false)
+       | _ => s_new s (mkS t [] v [] doc None [] false [] true None false)
        end.
 
 (** splitText: the tail becomes a new node of the same type, inserted as the next sibling (under the rules of
@@ -169,7 +174,7 @@ Definition s_split (s : sheap) (n : id) (offN : N) : sheap * result :=
        if negb (in_range offN d) then (s, RErr INDEX_SIZE)
        else let off := N.to_nat offN in
             let nt := length s in
-            let s1 := s ++ [mkS (s_ty (sn s n)) [] (skipn off d) [] (s_doc (sn s n)) None [] false [] true] in
+            let s1 := s ++ [mkS (s_ty (sn s n)) [] (skipn off d) [] (s_doc (sn s n)) None [] false [] true None false] in
             let (s2, r2) := match s_parent (sn s n) with
                             | Some p => s_insert s1 p nt (next_of n (s_kids (sn s p))) None
                             | None => (s1, ROk)
@@ -210,16 +215,20 @@ Fixpoint s_clone (fuel : nat) (s : sheap) (n : id) (deep : bool) : sheap * id :=
   let x := sn s n in
   let c := length s in
   let s1 := s ++ [mkS (s_ty x) (match s_ty x with TFrag => [] | _ => s_name x end)
-                      (if is_leaf (s_ty x) then s_val x else []) (match s_ty x with TElem => s_attrs x | _ => [] end)
-                      (s_doc x) None [] (ntype_eqb (s_ty x) TERef) (s_ns x) (s_l1 x)] in
+                      (if is_leaf (s_ty x) then s_val x else []) []
+                      (s_doc x) None [] (ntype_eqb (s_ty x) TERef) (s_ns x) (s_l1 x) None false] in
   match fuel with
   | O => (s1, c)
   | S f =>
-    if deep || ntype_eqb (s_ty x) TAttr then          (* the value of an attribute is always copied *)
-      (fold_left (fun s0 k => let (s2, kc) := s_clone f s0 k true in
-                              supd (supd s2 c (fun y => with_kids (s_kids y ++ [kc]) y)) kc (with_parent (Some c)))
-                 (s_kids x) s1, c)
-    else (s1, c)
+    let s3 := if deep || ntype_eqb (s_ty x) TAttr then          (* the value of an attribute is always copied *)
+                fold_left (fun s0 k => let (s2, kc) := s_clone f s0 k true in
+                                       supd (supd s2 c (fun y => with_kids (s_kids y ++ [kc]) y)) kc (with_parent (Some c)))
+                          (s_kids x) s1
+              else s1 in
+    (* the attributes of an element are copied with it, after its children *)
+    (fold_left (fun s0 a => let (s2, ac) := s_clone f s0 a true in
+                            supd (supd s2 c (fun y => with_attrs (s_attrs y ++ [ac]) y)) ac (with_oelem (Some c)))
+               (s_attrs x) s3, c)
   end.
 
 
@@ -230,7 +239,7 @@ Fixpoint s_clone (fuel : nat) (s : sheap) (n : id) (deep : bool) : sheap * id :=
     (g) for a Level 1 node renamed without a namespace only XML-name validity is required (it has no prefix). *)
 Fixpoint replace_id (old new : id) (l : list id) : list id :=
   match l with [] => [] | x :: r => if Nat.eqb x old then new :: r else x :: replace_id old new r end.
-Definition s_rename (s : sheap) (doc n : id) (ns nm : str) : sheap * result :=
+Definition s_rename_core (s : sheap) (doc n : id) (ns nm : str) : sheap * result :=
   if negb (oeqb (s_owner_doc s n) (Some doc)) then (s, RErr WRONG_DOC)
   else
     let x := sn s n in
@@ -243,17 +252,99 @@ Definition s_rename (s : sheap) (doc n : id) (ns nm : str) : sheap * result :=
          | Some uri =>
            if s_l1 x then                                                                                    (* (f) *)
              let ne := length s in
-             let s1 := s ++ [mkS (s_ty x) nm [] (s_attrs x) doc (s_parent x) (s_kids x) false uri false] in
+             let s1 := s ++ [mkS (s_ty x) nm [] (s_attrs x) doc (s_parent x) (s_kids x) false uri false None false] in
              let s2 := fold_left (fun s0 k => supd s0 k (with_parent (Some ne))) (s_kids x) s1 in
              let s3 := match s_parent x with
                        | Some p => supd s2 p (fun y => with_kids (replace_id n ne (s_kids y)) y)
                        | None => s2
                        end in
-             (supd s3 n (fun y => with_attrs [] (with_kids [] (with_parent None y))), RNode ne)
+             let s4 := fold_left (fun s0 a => supd s0 a (with_oelem (Some ne))) (s_attrs x) s3 in
+             (supd s4 n (fun y => with_attrs [] (with_kids [] (with_parent None y))), RNode ne)
            else (supd s n (fun y => with_ns uri (with_name nm y)), RNode n)
          end.
 
-Definition svalid (s : sheap) (i : id) : bool := i <? length s.
+(** ------------------------------------------------------------ attributes: Attr nodes owned by an element *)
+Fixpoint a_find (s : sheap) (l : list id) (nm : str) : option id :=
+  match l with [] => None | a :: r => if str_eqb nm (s_name (sn s a)) then Some a else a_find s r nm end.
+(** put [a] into the name-sorted list (replacing an attribute of the same name) *)
+Fixpoint a_put (s : sheap) (l : list id) (a : id) : list id :=
+  match l with
+  | [] => [a]
+  | b :: r => match str_cmp (s_name (sn s a)) (s_name (sn s b)) with
+              | Eq => a :: r | Lt => a :: l | Gt => b :: a_put s r a
+              end
+  end.
+(** the value of an attribute: the text of its children *)
+Definition a_value (s : sheap) (a : id) : str :=
+  flat_map (fun k => match s_ty (sn s k) with TText => s_val (sn s k) | _ => [] end) (s_kids (sn s a)).
+(** discard a subtree *)
+Fixpoint s_kill (fuel : nat) (s : sheap) (n : id) : sheap :=
+  match fuel with O => s | S f => fold_left (s_kill f) (s_kids (sn s n)) (supd s n (with_dead true)) end.
+(** give the attribute the value v: its children are discarded, one new Text node (numbered next) holds v *)
+Definition a_set_value (s : sheap) (a : id) (v : str) : sheap * result :=
+  if s_ro (sn s a) then (s, RErr NO_MOD)
+  else let s1 := fold_left (fun s0 k => s_kill (length s) (detach s0 k) k) (s_kids (sn s a)) s in
+       let t := length s1 in
+       let s2 := s1 ++ [mkS TText [] v [] (s_doc (sn s a)) None [] false [] true None false] in
+       (attach s2 a t None, ROk).
+
+Definition s_set_attr_node (s : sheap) (e a : id) : sheap * result :=
+  if s_ro (sn s e) then (s, RErr NO_MOD)
+  else if negb (oeqb (s_owner_doc s a) (Some (s_doc (sn s e)))) then (s, RErr WRONG_DOC)
+  else match s_oelem (sn s a) with
+       | Some o => if Nat.eqb o e then (s, RNode a)                 (* already an attribute of e: nothing happens *)
+                   else (s, RErr INUSE)
+       | None =>
+         let old := a_find s (s_attrs (sn s e)) (s_name (sn s a)) in
+         let s1 := supd (supd s e (fun x => with_attrs (a_put s (s_attrs x) a) x)) a (with_oelem (Some e)) in
+         match old with
+         | Some p => (supd s1 p (with_oelem None), RNode p)
+         | None => (s1, ROk)
+         end
+       end.
+
+Definition s_remove_attr_node (s : sheap) (e a : id) : sheap * result :=
+  if s_ro (sn s e) then (s, RErr NO_MOD)
+  else if existsb (Nat.eqb a) (s_attrs (sn s e))                     (* THAT node, not one of the same name *)
+       then (supd (supd s e (fun x => with_attrs (remove_id a (s_attrs x)) x)) a (with_oelem None), RNode a)
+       else (s, RErr NOT_FOUND).
+
+Definition s_set_attribute (s : sheap) (e : id) (nm v : str) : sheap * result :=
+  if s_ro (sn s e) then (s, RErr NO_MOD)
+  else match a_find s (s_attrs (sn s e)) nm with
+       | Some a => a_set_value s a v
+       | None =>
+         if valid_name nm then
+           let a := length s in
+           let s1 := s ++ [mkS TAttr nm [] [] (s_doc (sn s e)) None [] false [] true (Some e) false] in
+           a_set_value (supd s1 e (fun x => with_attrs (a_put s1 (s_attrs x) a) x)) a v
+         else (s, RErr INVALID_CHAR)
+       end.
+
+Definition s_remove_attribute (s : sheap) (e : id) (nm : str) : sheap * result :=
+  if s_ro (sn s e) then (s, RErr NO_MOD)
+  else match a_find s (s_attrs (sn s e)) nm with
+       | Some a => (s_kill (length s) (supd (supd s e (fun x => with_attrs (remove_id a (s_attrs x)) x)) a (with_oelem None)) a, ROk)
+       | None => (s, ROk)
+       end.
+
+
+(** an attribute that is on an element stays on it under its new name (replacing an attribute that has that name) *)
+Definition s_rename (s : sheap) (doc n : id) (ns nm : str) : sheap * result :=
+  match (if ntype_eqb (s_ty (sn s n)) TAttr then s_oelem (sn s n) else None) with
+  | Some el =>
+    if s_ro (sn s el) then (if negb (oeqb (s_owner_doc s n) (Some doc)) then (s, RErr WRONG_DOC) else (s, RErr NO_MOD))
+    else
+    let s0 := supd (supd s el (fun x => with_attrs (remove_id n (s_attrs x)) x)) n (with_oelem None) in
+    let (s1, r1) := s_rename_core s0 doc n ns nm in
+    match r1 with
+    | RNode m => (fst (s_set_attr_node s1 el m), RNode m)
+    | _ => (s, r1)
+    end
+  | None => s_rename_core s doc n ns nm
+  end.
+
+Definition svalid (s : sheap) (i : id) : bool := (i <? length s) && negb (s_dead (sn s i)).
 Definition sovalid (s : sheap) (o : option id) : bool := match o with Some i => svalid s i | None => true end.
 Definition is_text (t : ntype) : bool := match t with TText | TCData => true | _ => false end.
 
@@ -270,7 +361,8 @@ Definition sstep (s : sheap) (o : op) : sheap * result :=
       match s_ty (sn s n) with TDoc => (s, RSkip) | _ => let (s1, c) := s_clone (length s) s n deep in (s1, RNode c) end
     else (s, RSkip)
   | ONormalize n => if svalid s n then s_normalize s n else (s, RSkip)
-  | OSetData n v => if svalid s n && is_leaf (s_ty (sn s n)) then s_chardata s n (fun _ => Some v) else (s, RSkip)
+  | OSetData n v => if svalid s n && is_leaf (s_ty (sn s n)) then s_chardata s n (fun _ => Some v)
+                    else if svalid s n && ntype_eqb (s_ty (sn s n)) TAttr then a_set_value s n v else (s, RSkip)
   | OAppendData n v => if svalid s n && is_chardata (s_ty (sn s n)) then s_chardata s n (fun d => Some (d ++ v)) else (s, RSkip)
   | OInsertData n off v =>
     if svalid s n && is_chardata (s_ty (sn s n)) then
@@ -291,19 +383,17 @@ Definition sstep (s : sheap) (o : op) : sheap * result :=
        else (s, RErr INDEX_SIZE))
     else (s, RSkip)
   | OSplitText n off => if svalid s n && is_text (s_ty (sn s n)) then s_split s n off else (s, RSkip)
-  | OSetAttr e nm v =>
-    if svalid s e && is_elem s e then
-      (if s_ro (sn s e) then (s, RErr NO_MOD)
-       else if match attr_get (s_attrs (sn s e)) nm with Some _ => true | None => valid_name nm end
-            then (supd s e (with_attrs (attr_set (s_attrs (sn s e)) nm v)), ROk)
-            else (s, RErr INVALID_CHAR))
-    else (s, RSkip)
-  | ORemoveAttr e nm =>
-    if svalid s e && is_elem s e then
-      (if s_ro (sn s e) then (s, RErr NO_MOD) else (supd s e (with_attrs (attr_remove (s_attrs (sn s e)) nm)), ROk))
-    else (s, RSkip)
+  | OSetAttr e nm v => if svalid s e && is_elem s e then s_set_attribute s e nm v else (s, RSkip)
+  | ORemoveAttr e nm => if svalid s e && is_elem s e then s_remove_attribute s e nm else (s, RSkip)
   | OGetAttr e nm =>
-    if svalid s e && is_elem s e then (s, RStr (match attr_get (s_attrs (sn s e)) nm with Some v => v | None => [] end))
+    if svalid s e && is_elem s e then (s, RStr (match a_find s (s_attrs (sn s e)) nm with Some a => a_value s a | None => [] end))
+    else (s, RSkip)
+  | OSetAttrNode e a =>
+    if svalid s e && svalid s a && is_elem s e && ntype_eqb (s_ty (sn s a)) TAttr then s_set_attr_node s e a else (s, RSkip)
+  | ORemoveAttrNode e a =>
+    if svalid s e && svalid s a && is_elem s e && ntype_eqb (s_ty (sn s a)) TAttr then s_remove_attr_node s e a else (s, RSkip)
+  | OGetAttrNode e nm =>
+    if svalid s e && is_elem s e then (s, match a_find s (s_attrs (sn s e)) nm with Some a => RNode a | None => ROk end)
     else (s, RSkip)
   | ORename d n ns nm =>
     if svalid s d && svalid s n && ntype_eqb (s_ty (sn s d)) TDoc then s_rename s d n ns nm else (s, RSkip)
@@ -315,4 +405,4 @@ Fixpoint srun (s : sheap) (l : list op) : sheap * list result :=
   | o :: r => let (s1, x) := sstep s o in let (s2, xs) := srun s1 r in (s2, x :: xs)
   end.
 
-Definition sinit (n : nat) : sheap := map (fun i => mkS TDoc [] [] [] i None [] false [] true) (seq 0 n).
+Definition sinit (n : nat) : sheap := map (fun i => mkS TDoc [] [] [] i None [] false [] true None false) (seq 0 n).
